@@ -1,4 +1,194 @@
-import StreamzVerif.Model.Graph
+import StreamzVerif.Proofs.RefCount
+/-
+C04 — checkpoint safety, synchronous half: on the dataflow model (`Model/Graph.lean`) the completion signal of
+a reference counter (`Ev.fire r`: `RefCounter.release` found `count ≤ 0` and handed the callback to the event
+loop) never precedes completion.  Vocabulary as in `Props/C05.lean` (`holders`, `Good`, `Step`, `Steps`,
+`logNet`); the proofs are in `Proofs/RefCount.lean`.
+
+What "the moment of the signal" is.  The log of an operation is also the history of the counter
+(`count_tracks_log` in C05): the count of `r` at the moment after the log prefix `p` is
+`S.count r + logNet r p`.  `RefCounter.release` does not *run* the callback, it schedules it on the loop
+(`self.loop.add_callback(self.cb)`, core.py 107-110); it runs after the current synchronous operation has
+returned.  `sync_never_early` therefore states, for every `fire r` in the log of a top-level operation started
+in a quiescent state:
+  * at that moment the count of `r` is exactly 0 — so by the invariant `count = holders + retains of the
+    `_emit` frames on the stack` nothing is in flight and nothing else holds it;
+  * the rest of the operation never retains or releases `r` again (no holder appears afterwards);
+  * at the end of the operation — the earliest moment the callback can run — `holders r = 0`: no node buffers
+    an element carrying `r`, no asynchronous consumer that received it is still running, no `partition` flush
+    that emitted it is still waiting for its consumers;
+and `sync_never_early_later` extends this to every later quiescent point (unless the environment injects the
+same reference again).
+
+A remark on granularity: inside one `update` body the model performs `release old` *before* the assignment
+that drops `old` from the node's buffer in four places (`partition_unique` replacing an entry, `combine_latest`
+and `zip_latest` replacing a slot, `collect.flush`).  For `combine_latest`, `zip_latest` and `flush` this is the
+order of the Python statements (core.py: `_release_refs(self.metadata[idx])` precedes
+`self.metadata[idx] = metadata`; `_release_refs(metadata)` precedes `self.metadata_cache.clear()`); in
+`partition_unique` Python pops the entry first and the model's two adjacent effects are the other way round.
+Between these two adjacent statements of the same body no other code runs, so a state-based "`holders r = 0` in
+the instant between them" would be false for the very slot that is being overwritten and says nothing about
+safety.  `sync_never_early_moment` therefore excepts the node whose own body performs the release, and
+`sync_never_early` covers it at the point where the operation returns.
+-/
 namespace StreamzVerif.Graph
-theorem placeholder_C04 : True := trivial
+open RefCount
+
+variable (G : NodeId → Kind)
+
+/-- **`sync_never_early`**: every completion signal given during a top-level operation (emit at any node /
+`collect.flush()` / an asynchronous consumer finishing) started in a quiescent state is given at count exactly
+0, is final for this operation, and at the end of the operation nobody holds the reference. -/
+theorem sync_never_early {nodes : List NodeId} (hn : nodes.Nodup) {S S' : State} {op : Op} {l : List Ev}
+    (hG : Good G nodes S) (h : Step G nodes S op S' l) (r : Nat) (p q : List Ev)
+    (hl : l = p ++ Ev.fire r :: q) :
+    S.count r + logNet r p = 0 ∧ (∀ e ∈ q, evNet r e = 0) ∧ S'.count r = 0 ∧ holders G nodes S' r = 0 := by
+  have h0 : 0 ≤ S.count r := by rw [hG.bal r]; omega
+  have hlog := step_logOK G r hG h
+  obtain ⟨hz, hd⟩ := (step_safeTop G hn r hG h).fire_dead hlog.2 h0 hl
+  have hnet : logNet r q = 0 := by
+    have a := logNet_nonneg (r := r) (l := q) (fun e he => by rw [hd e he]; omega)
+    have b := logNet_nonpos (r := r) (l := q) (fun e he => by rw [hd e he]; omega)
+    omega
+  have hc : S'.count r = 0 := by
+    rw [hlog.1, hl]
+    simp only [logNet_append, logNet_cons, evNet_fire]
+    omega
+  have := (step_good G hn hG h).bal r
+  exact ⟨hz, hd, hc, by omega⟩
+
+/-- Contrapositive, the form the property is usually read in: while an element carrying `r` is still buffered
+in a node, still being handled by an asynchronous consumer, or still awaited by a `partition` flush at the end
+of an operation, that operation has not signalled completion of `r`. -/
+theorem sync_held_blocks {nodes : List NodeId} (hn : nodes.Nodup) {S S' : State} {op : Op} {l : List Ev}
+    (hG : Good G nodes S) (h : Step G nodes S op S' l) (r : Nat) (hheld : 0 < holders G nodes S' r) :
+    Ev.fire r ∉ l := by
+  intro hm
+  obtain ⟨p, q, hl⟩ := List.append_of_mem hm
+  have := (sync_never_early G hn hG h r p q hl).2.2.2
+  omega
+
+/-- **Signalled once**: an operation schedules the callback of a reference at most once. -/
+theorem sync_fires_once {nodes : List NodeId} (hn : nodes.Nodup) {S S' : State} {op : Op} {l : List Ev}
+    (hG : Good G nodes S) (h : Step G nodes S op S' l) (r : Nat) (p q : List Ev)
+    (hl : l = p ++ Ev.fire r :: q) : Ev.fire r ∉ q := by
+  have hd := (sync_never_early G hn hG h r p q hl).2.1
+  have hlog := step_logOK G r hG h
+  subst hl
+  obtain ⟨e', he'⟩ := hlog.2.drop
+  simp only [FireOK, expNext] at he'
+  exact he'.2.no_fire hd
+
+/-- **... and never again**: after the operation in which `r` was signalled, in every later quiescent state of
+the session nobody holds `r`, its count is 0, and no later operation signals it a second time — provided the
+environment does not emit the same counter again (which would start a new life of the counter). -/
+theorem sync_never_early_later {nodes : List NodeId} (hn : nodes.Nodup) {S S1 S2 : State} {op : Op}
+    {ops : List Op} {l l2 : List Ev} (hG : Good G nodes S) (h : Step G nodes S op S1 l) (r : Nat)
+    (hf : Ev.fire r ∈ l) (h2 : Steps G nodes S1 ops S2 l2)
+    (hops : ∀ o ∈ ops, ∀ n v md, o = Op.emit n v md → wMd r md = 0) :
+    holders G nodes S2 r = 0 ∧ S2.count r = 0 ∧ Ev.fire r ∉ l2 ∧ ∀ e ∈ l2, evNet r e = 0 := by
+  obtain ⟨p, q, hl⟩ := List.append_of_mem hf
+  have hc := (sync_never_early G hn hG h r p q hl).2.2.1
+  have hG1 := step_good G hn hG h
+  obtain ⟨a, b, c⟩ := steps_dead G hn r h2 hG1 hc hops
+  have := (steps_good G hn h2 hG1).bal r
+  exact ⟨by omega, c, b, a⟩
+
+/-- **`sync_never_early_moment`** — the state at the moment of the signal.  `RunA` is the run with an
+instrumented log (same rules as `Run`; every event carries the state in which the primitive that logged it
+started and, for the retains / releases written in an `update` body, the node executing that body).  For a
+top-level `_emit` from a quiescent state: whenever a release schedules the callback of `r`, in the state at
+that moment
+  * no asynchronous consumer that is still running carries `r`,
+  * no suspended `partition` flush is waiting for consumers of an emission carrying `r`,
+  * no node buffers an element carrying `r` — with the only possible exception of the node whose own `update`
+    body is performing that release (it is replacing or flushing the entry; see the remark on granularity above,
+    and `sync_never_early` for the state when the operation returns). -/
+theorem sync_never_early_moment {nodes : List NodeId} (hn : nodes.Nodup) {n : NodeId} {v : Val} {md : Meta}
+    {S S' : State} {l : List Ev} {t : List Tok} (hG : Good G nodes S) (hin : n ∈ nodes)
+    (h : Run G (.emit n v md) S S' l t) :
+    ∃ al, RunA G (.emit n v md) S S' al t ∧ al.map (·.1) = l ∧
+      ∀ r X w, (Ev.fire r, X, w) ∈ al →
+        pendHolds X.pending r = 0 ∧ waitHolds X.waiters r = 0 ∧
+          ∀ i ∈ nodes, some i ≠ w → nodeHolds (G i) (X.loc i) r = 0 := by
+  obtain ⟨al, ha, hl, hq⟩ := emit_moment G hn hG hin h
+  exact ⟨al, ha, hl, fun r X w hm => holdersExcept_zero G (hq r _ hm rfl)⟩
+
+/-- the same for `collect.flush()` -/
+theorem sync_never_early_moment_flush {nodes : List NodeId} (hn : nodes.Nodup) {d : NodeId}
+    {S S' : State} {l : List Ev} {t : List Tok} (hG : Good G nodes S) (hin : d ∈ nodes) (hk : G d = .collect)
+    (h : Run G (.effs d (flushProg (S.loc d))) S S' l t) :
+    ∃ al, RunA G (.effs d (flushProg (S.loc d))) S S' al t ∧ al.map (·.1) = l ∧
+      ∀ r X w, (Ev.fire r, X, w) ∈ al →
+        pendHolds X.pending r = 0 ∧ waitHolds X.waiters r = 0 ∧
+          ∀ i ∈ nodes, some i ≠ w → nodeHolds (G i) (X.loc i) r = 0 := by
+  obtain ⟨al, ha, hl, hq⟩ := flush_moment G hn hG hin hk h
+  exact ⟨al, ha, hl, fun r X w hm => holdersExcept_zero G (hq r _ hm rfl)⟩
+
+/-- **`sync_pending_consumer_blocks`**: a reference carried by an asynchronous consumer invocation that has
+not finished (`x ∈ S.pending`) has count `≥ 1`; the end of *another* invocation (`sinkDone tok`, `tok ≠ x.1`)
+— including all the `partition` flushes it wakes up — does not signal it, leaves its count `≥ 1` and leaves
+the invocation pending. -/
+theorem sync_pending_consumer_blocks {nodes : List NodeId} {S : State} (hG : Good G nodes S)
+    {x : Tok × NodeId × Meta} (hx : x ∈ S.pending) {r : Nat} (hr : 0 < wMd r x.2.2) :
+    1 ≤ S.count r ∧ ∀ tok S' l, sinkDone tok S = some (S', l) → tok ≠ x.1 →
+      Ev.fire r ∉ l ∧ 1 ≤ S'.count r ∧ x ∈ S'.pending :=
+  pending_blocks G hG hx hr
+
+/-- ... and no other operation signals it either: as long as the invocation is pending at the end of an
+operation, that operation did not signal `r`. -/
+theorem sync_pending_consumer_blocks_all {nodes : List NodeId} (hn : nodes.Nodup) {S S' : State} {op : Op}
+    {l : List Ev} (hG : Good G nodes S) (h : Step G nodes S op S' l) {x : Tok × NodeId × Meta}
+    (hx : x ∈ S'.pending) {r : Nat} (hr : 0 < wMd r x.2.2) : Ev.fire r ∉ l := by
+  refine sync_held_blocks G hn hG h r ?_
+  have := wMd_le_pendHolds (r := r) hx
+  simp only [holders]; omega
+
+/-! ### Non-vacuity -/
+
+section Examples
+
+/-- the callbacks scheduled by a log, in order -/
+def firedRefs4 (l : List Ev) : List Nat := l.filterMap fun | .fire r => some r | _ => none
+
+/-- source 0 → two asynchronous sinks 1, 2 -/
+def rcGa : NodeId → Kind
+  | 0 => .source
+  | _ => .sink .async
+def rcSa : State := { loc := fun _ => {}, downs := fun i => match i with | 0 => [1, 2] | _ => [] }
+
+theorem rcSa_good : Good rcGa [0, 1, 2] rcSa := by
+  refine good_init rcGa ⟨?_, ?_⟩ ?_ ?_ rfl rfl (fun _ => rfl)
+  · intro u d hd
+    unfold rcSa at hd; simp only [] at hd
+    split at hd <;> simp at hd
+    rcases hd with rfl | rfl <;> decide
+  · intro u hu d hd
+    unfold rcSa at hd; simp only [] at hd
+    split at hd <;> simp at hd
+    rcases hd with rfl | rfl <;> simp
+  · intro i hi _
+    simp only [List.mem_cons, List.not_mem_nil, or_false] at hi
+    rcases hi with rfl | rfl | rfl <;> simp [rcGa]
+  · intro i hi
+    simp only [List.mem_cons, List.not_mem_nil, or_false] at hi
+    rcases hi with rfl | rfl | rfl <;> rfl
+
+def rcA1 := emitAt rcGa 10 0 (.int 1) [⟨0, some 7⟩] rcSa
+
+/-- after the emission both consumers are running: count 2 = two holders, nothing signalled -/
+example : rcA1.err = none ∧ rcA1.carried = none ∧ rcA1.st.count 7 = 2 ∧ holders rcGa [0, 1, 2] rcA1.st 7 = 2 ∧
+    rcA1.st.pending.map (·.1) = [0, 1] ∧ firedRefs4 rcA1.log = [] := by decide +kernel
+/-- the first consumer finishes: count 1, still not signalled; the second finishes: count 0, signalled -/
+def rcA2 : State := ((sinkDone 0 rcA1.st).map (·.1)).getD rcA1.st
+example : (sinkDone 0 rcA1.st).map (fun p => (p.1.count 7, firedRefs4 p.2)) = some (1, []) := by decide +kernel
+example : (sinkDone 1 rcA2).map (fun p => (p.1.count 7, firedRefs4 p.2, holders rcGa [0, 1, 2] p.1 7)) =
+    some (0, [7], 0) := by decide +kernel
+/-- the theorems apply: the state after the emission is quiescent -/
+example : Good rcGa [0, 1, 2] rcA1.st :=
+  (step_good rcGa (by decide) rcSa_good
+    (step_of_emitAt rcGa (nodes := [0, 1, 2]) (by decide) (by decide +kernel) (by decide +kernel)))
+
+end Examples
+
 end StreamzVerif.Graph
